@@ -164,6 +164,33 @@ CLAIMS = {
              "'bounded'). Not decided: sufficiency as an arithmetic fact "
              "for N up to 2^20 when forms differ.",
         ref="DESIGN.md section 3 C17"),
+    "C19": dict(
+        technique="partial evaluation of the count functions on a layer "
+                  "with symbolic shapes (polynomial normal-form identity); "
+                  "writer/reader key-set comparison per class arm; symbolic "
+                  "evaluation of the energy sums",
+        text="Operation counts as polynomials in the symbolic input/output/"
+             "kernel shapes must equal the true MAC count per layer class "
+             "(covers every stride/padding/dilation at once); entry keys "
+             "read by the energy model are written by the data type map; "
+             "every counted class has an op-energy arm; totals are sums of "
+             "the stored entries; costs are clamped at 0.",
+        note="Trusted: Keras compute_output_shape. Not decided: the energy "
+             "constants, rounding of entries to two decimals.",
+        ref="DESIGN.md section 3 C19"),
+    "C20": dict(
+        technique="partial evaluation of _get_quantizer / quantize_model on "
+                  "tagged configurations; key-set comparison with "
+                  "model_quantize; normal form + polarity of the forgiving "
+                  "factor; symbolic size model",
+        text="Which table and limit index reach the tuner for each tensor "
+             "role, limit filter orientation, exclusions, pattern groups, "
+             "AutoQKeras->model_quantize key agreement, forgiving factor "
+             "zero/monotone/sign, size model = elements x bits.",
+        note="Trusted: hp.Choice/Fixed return an offered value. Not decided: "
+             "the reachable hyper-parameter space, architecture equality up "
+             "to filter scaling.",
+        ref="DESIGN.md section 3 C20"),
 }
 
 PENDING = "rules for this property are not built yet in this revision of /verif"
